@@ -1665,7 +1665,7 @@ impl Engine for C20 {
     }
 
     fn rule(&self) -> String {
-        "one run = one class file (refclass::encode(gen_class(seed, GenCfg swarm: 3 size classes x feature masks x version ranges), gen_layout(seed) or the default layout), or a file of the vendored javac corpus as-is / re-encoded, or the minimal class) that refclass::validate accepts, x 0-3 hand-made edits of the raw value (pool entry appended incl. long/double, attribute built through the public fields, member removed) x one reader schedule (chunk ceiling, short %, EINTR %, 0-9 trailing bytes) x one writer schedule x 0-2 reader faults (EOF / flipped bit / EIO at call / EIO at offset, aimed at pool, attribute bodies, length and count fields, last bytes) x 0-2 writer faults (ENOSPC aimed after magic / mid-pool / pool-body border / last byte, EIO at call, Ok(0), flush error); a run counts as non-trivial when a short transfer, EINTR or fault actually fired, and as distinct by (class shape digest, I/O event-log digest). T0: read Ok, value == index-level skeleton of the bytes, to_bytes(read(b)) == b, length() == bytes written == write(), read(to_bytes(v)) == v, and where bytes differ the output must parse under refclass to the same Sem, validate, and read alike under duke; edited raw values must re-read equal and parse under refclass to exactly the edited Sem. T1: identical value, exactly the class length consumed, byte-identical sink. T2 reader: Err, or Ok(v) with to_bytes(v) == the bytes delivered up to the consumed position; no panic, no runaway; T2 writer: Err => sink is a prefix of the T0 bytes, Ok => exactly the T0 bytes; afterwards plain read / write give the T0 answer".into()
+        "one run = one class file (refclass::encode(gen_class(seed, GenCfg swarm: 3 size classes x feature masks x version ranges), gen_layout(seed) or the default layout), or a file of the vendored javac corpus as-is / re-encoded, or the minimal class) that refclass::validate accepts, x 0-3 hand-made edits of the raw value (pool entry appended incl. long/double, attribute built through the public fields, member removed) x one reader schedule (chunk ceiling, short %, EINTR %, 0-9 trailing bytes) x one writer schedule x 0-2 reader faults (EOF / flipped bit / EIO at call / EIO at offset, aimed at pool, attribute bodies, length and count fields, last bytes) x 0-2 writer faults (ENOSPC aimed after magic / mid-pool / pool-body border / last byte, EIO at call, Ok(0), flush error); a run counts as non-trivial when a short transfer, EINTR or fault actually fired, and as distinct by (class shape digest, I/O event-log digest). T0: read Ok, value == index-level skeleton of the bytes, to_bytes(read(b)) == b, length() == bytes written == write(), read(to_bytes(v)) == v, and where bytes differ the output must parse under refclass to the same Sem, validate, and read alike under duke; edited raw values must re-read equal and parse under refclass to exactly the edited Sem; in 4 % of the runs one of 19 hand-built values with a sentinel in every public field is compared, both ways, with its hand-written JVMS bytes. T1: identical value, exactly the class length consumed, byte-identical sink. T2 reader: Err, or Ok(v) with to_bytes(v) == the bytes delivered up to the consumed position; no panic, no runaway; T2 writer: Err => sink is a prefix of the T0 bytes, Ok => exactly the T0 bytes; afterwards plain read / write give the T0 answer".into()
     }
     fn assumptions(&self) -> Vec<String> {
         vec![
@@ -1681,7 +1681,7 @@ impl Engine for C20 {
     fn real_and_stub(&self) -> serde_json::Value {
         json!({"real": ["raw_class_file::ClassFile::{read, write, to_bytes, length}", "the notation! macro's _read/_write/_len for every structure", "std read_exact / write_all", "duke::read_class (cross-reader)"],
                "stub": ["byte source (SimReader behind the allocation guard)", "byte sink (SimWriter)"],
-               "reference": ["refclass::{gen_class, gen_layout, encode, parse, validate, Sem::diff}", "c20_skel (index-level skeleton walker written from JVMS 4.1/4.4/4.7)"]})
+               "reference": ["refclass::{gen_class, gen_layout, encode, parse, validate, Sem::diff}", "c20_skel (index-level skeleton walker written from JVMS 4.1/4.4/4.7)", "c20_golden (hand-written JVMS byte layouts of 19 hand-built values)"]})
     }
     fn expected_probes(&self) -> Vec<&'static str> {
         vec![
